@@ -688,6 +688,10 @@ func main() {
 		}
 		r := hx.Rand(o.Seed, 1101)
 		k := 0
+		for i, s := range hs.Regress("c11") { // minimised regression inputs run first
+			hx.Emit(searchCase(fmt.Sprintf("regress:%d", i), s, true, true))
+			hx.Emit(searchCase(fmt.Sprintf("regress:%d", i), s, false, false))
+		}
 		for i, s := range hs.Always() {
 			hx.Emit(searchCase(fmt.Sprintf("pinned:%d", i), s, i%2 == 0, false))
 		}
